@@ -451,7 +451,13 @@ impl<'a, 'src: 'a> Compiler<'a, 'src> {
   /// Emit byte code for a return
   fn emit_return(&mut self, line: u32) {
     match self.fun_kind {
-      FunKind::Initializer => self.emit_byte(SymbolicByteCode::GetLocal(0), line),
+      // an initializer returns its receiver: slot 0, through its box if a closure captured it
+      FunKind::Initializer => match self.resolve_local(SELF) {
+        Some((index, state @ (SymbolState::LocalInitialized | SymbolState::LocalCaptured))) => {
+          self.emit_local_get(state, index, line)
+        },
+        _ => self.emit_byte(SymbolicByteCode::GetLocal(0), line),
+      },
       _ => self.emit_byte(SymbolicByteCode::Nil, line),
     }
 
